@@ -30,9 +30,10 @@ def _alarm(signum, frame):
 
 
 def guarded(fn, secs=20):
-    """run fn() with a wall-clock budget; returns (outcome, value)"""
-    signal.signal(signal.SIGALRM, _alarm)
-    signal.alarm(secs)
+    """run fn() with a budget of CPU time of this process (not wall-clock time: a loaded machine must not turn a fast
+    call into a "Timeout"); returns (outcome, value)"""
+    signal.signal(signal.SIGPROF, _alarm)
+    signal.setitimer(signal.ITIMER_PROF, secs)
     import claripy
     try:
         return "ok", fn()
@@ -45,7 +46,7 @@ def guarded(fn, secs=20):
     except Exception as ex:  # noqa: BLE001
         return "PyError:" + type(ex).__name__, None
     finally:
-        signal.alarm(0)
+        signal.setitimer(signal.ITIMER_PROF, 0)
 
 
 def build(t):
